@@ -13,6 +13,13 @@ import (
 //go:embed jp_siblings.txt
 var jpSiblingTable string
 
+// the same classes computed with fingerprint lines that carry the side of the `last fragment?` test they sit on
+// (a clamp moved into one branch leaves the class); fewer cross-evaluator classes survive this finer fingerprint,
+// which is why both tables are kept
+//
+//go:embed jp_siblings_ctx.txt
+var jpSiblingTableCtx string
+
 var jpEvaluators = []string{"Get", "FirstFound", "Has", "set", "modify", "GetNodes", "FirstNode"}
 
 var siblingContainers = map[string]bool{"[]any": true, "gen.Array": true, "Indexed": true, "map[string]any": true, "gen.Object": true, "Keyed": true}
@@ -31,7 +38,9 @@ type sibFP struct {
 	at    string
 }
 
-func jpFingerprints(prog *Program) (map[string]map[string]sibFP, error) {
+func jpFingerprints(prog *Program, withCtx bool) (map[string]map[string]sibFP, error) {
+	fpWithCtx = withCtx
+	defer func() { fpWithCtx = false }()
 	cells, err := jpCells(prog, jpEvaluators)
 	if err != nil {
 		return nil, err
@@ -52,8 +61,8 @@ func jpFingerprints(prog *Program) (map[string]map[string]sibFP, error) {
 
 // genSiblingTable prints the table of sibling classes found on the current
 // tree (used once, when the table was frozen; see DESIGN.md Engine B).
-func genSiblingTable(prog *Program) (string, error) {
-	fps, err := jpFingerprints(prog)
+func genSiblingTable(prog *Program, withCtx bool) (string, error) {
+	fps, err := jpFingerprints(prog, withCtx)
 	if err != nil {
 		return "", err
 	}
@@ -113,64 +122,70 @@ func genSiblingTable(prog *Program) (string, error) {
 
 func ruleSiblingArith(prog *Program, rep *Report, wantEval map[string]bool, ruleName string) {
 	rep.Rules = append(rep.Rules, ruleName+": the cells of the JSONPath evaluators (evaluator x fragment kind x container type, located through the type switches over jp.Frag implementers and over the container value) are reduced to their index-selection fingerprint - assignments to int variables, for-loop headers, conditions over int variables/LEN, boolean resets, labelled branches, with len(c)/c.Size()/cached size -> LEN and the container variable normalised - and every class of cells that share one fingerprint in the frozen sibling table (copies for []any, gen.Array, Indexed / map, gen.Object, Keyed, and the evaluators that share traversal code) must still share one: a slip in one copy moves it out of its class")
-	fps, err := jpFingerprints(prog)
-	if err != nil {
-		rep.Errorf("%v", err)
-		return
-	}
 	rows := 0
-	for _, line := range strings.Split(strings.TrimSpace(jpSiblingTable), "\n") {
-		line = strings.TrimSpace(line)
-		if line == "" || strings.HasPrefix(line, "#") {
-			continue
+	for pass, table := range []string{jpSiblingTable, jpSiblingTableCtx} {
+		fps, err := jpFingerprints(prog, pass == 1)
+		if err != nil {
+			rep.Errorf("%v", err)
+			return
 		}
-		parts := strings.Split(line, "|")
-		frag, ids := parts[0], parts[1:]
-		relevant := false
-		for _, id := range ids {
-			if wantEval[strings.SplitN(id, "/", 2)[0]] {
-				relevant = true
-			}
+		kp := ""
+		if pass == 1 {
+			kp = "ctx:"
 		}
-		if !relevant {
-			continue
-		}
-		rows++
-		count := map[string][]string{}
-		missing := false
-		for _, id := range ids {
-			fp, ok := fps[frag][id]
-			if !ok {
-				rep.Errorf("%s: sibling cell %s/%s no longer resolves (the sibling table must be regenerated and re-read)", ruleName, frag, id)
-				missing = true
+		for _, line := range strings.Split(strings.TrimSpace(table), "\n") {
+			line = strings.TrimSpace(line)
+			if line == "" || strings.HasPrefix(line, "#") {
 				continue
 			}
-			k := strings.Join(fp.lines, "\n")
-			count[k] = append(count[k], id)
-		}
-		if missing {
-			continue
-		}
-		key := frag + ":" + strings.Join(ids, "=")
-		if len(count) == 1 {
-			rep.Discharge(ruleName, key, fps[frag][ids[0]].at, fmt.Sprintf("%d cells share one index-selection fingerprint (%d lines)", len(ids), len(fps[frag][ids[0]].lines)))
-			continue
-		}
-		// majority class
-		major, best := "", 0
-		for k, m := range count {
-			if len(m) > best {
-				major, best = k, len(m)
+			parts := strings.Split(line, "|")
+			frag, ids := parts[0], parts[1:]
+			relevant := false
+			for _, id := range ids {
+				if wantEval[strings.SplitN(id, "/", 2)[0]] {
+					relevant = true
+				}
 			}
-		}
-		for k, members := range count {
-			if k == major {
+			if !relevant {
 				continue
 			}
-			for _, id := range members {
-				only, lack := diffLines(strings.Split(k, "\n"), strings.Split(major, "\n"))
-				rep.Violate(Finding{Rule: ruleName, Key: frag + ":" + id, Pos: fps[frag][id].at,
-					Msg: fmt.Sprintf("cell %s/%s no longer selects indexes like its %d siblings (%s): it has %v where they have %v", frag, id, best, strings.Join(count[major], ", "), only, lack)})
+			rows++
+			count := map[string][]string{}
+			missing := false
+			for _, id := range ids {
+				fp, ok := fps[frag][id]
+				if !ok {
+					rep.Errorf("%s: sibling cell %s/%s no longer resolves (the sibling table must be regenerated and re-read)", ruleName, frag, id)
+					missing = true
+					continue
+				}
+				k := strings.Join(fp.lines, "\n")
+				count[k] = append(count[k], id)
+			}
+			if missing {
+				continue
+			}
+			key := kp + frag + ":" + strings.Join(ids, "=")
+			if len(count) == 1 {
+				rep.Discharge(ruleName, key, fps[frag][ids[0]].at, fmt.Sprintf("%d cells share one index-selection fingerprint (%d lines)", len(ids), len(fps[frag][ids[0]].lines)))
+				continue
+			}
+			// majority class
+			major, best := "", 0
+			for k, m := range count {
+				if len(m) > best {
+					major, best = k, len(m)
+				}
+			}
+			for k, members := range count {
+				if k == major {
+					continue
+				}
+				for _, id := range members {
+					only, lack := diffLines(strings.Split(k, "\n"), strings.Split(major, "\n"))
+					rep.Violate(Finding{Rule: ruleName, Key: kp + frag + ":" + id, Pos: fps[frag][id].at,
+						Msg: fmt.Sprintf("cell %s/%s no longer selects indexes like its %d siblings (%s): it has %v where they have %v", frag, id, best, strings.Join(count[major], ", "), only, lack)})
+				}
 			}
 		}
 	}
@@ -245,7 +260,9 @@ func init() {
 		ruleFilterRoot(prog, rep, func(fn string) bool { return filterRootMutators[fn] })
 		ruleResliceInput(prog, rep, "jp")
 		rulePushPair(prog, rep, func(fd *ast.FuncDecl) bool { return twinScope(fd) == "C13" }, 2)
-		ruleKindList(prog, rep, func(fd *ast.FuncDecl) bool { return twinScope(fd) == "C13" || fd.Name.Name == "descentAddValue" || fd.Name.Name == "stackAddValue" }, 5)
+		ruleKindList(prog, rep, func(fd *ast.FuncDecl) bool {
+			return twinScope(fd) == "C13" || fd.Name.Name == "descentAddValue" || fd.Name.Name == "stackAddValue"
+		}, 5)
 		ruleAppendRetain(prog, rep, "jp")
 		rulePresenceByNil(prog, rep)
 		ruleIndexLE(prog, rep, "jp")
